@@ -260,6 +260,7 @@ class CEmitter:
         pre.append("int* %s = calloc(1, sizeof(int));" % d)
         if v["destructor"]:
             return "(%s){ .data = %s, .run_callback = cb_run_%d, .destructor = cb_drop_%d }" % (cty, d, n, n)
+        assert not v.get("held")
         post.append(("free", d))
         return "(%s){ .data = %s, .run_callback = cb_run_%d, .destructor = NULL }" % (cty, d, n)
 
